@@ -310,6 +310,11 @@ func runAPICase(t *testing.T, c *APICase) (viol []vh.Violation, tags map[string]
 				for k := range mine {
 					at := t0 + mine[k].t
 					if at == T {
+						// a POST at T itself: order against the flush is open. A firing heartbeat changes nothing either
+						// way (the earlier POST decides); anything else makes T unjudged.
+						if T < firingUntil(mine[k]) {
+							continue
+						}
 						return false, false
 					}
 					if at < T {
